@@ -14,12 +14,14 @@ import (
 	"strings"
 	"sync"
 	"sync/atomic"
+	"syscall"
 	"time"
 
 	"github.com/prometheus/client_golang/prometheus"
 
 	"github.com/form3tech-oss/f1/v2/internal/metrics"
 	"github.com/form3tech-oss/f1/v2/internal/options"
+	"github.com/form3tech-oss/f1/v2/internal/progress"
 	"github.com/form3tech-oss/f1/v2/internal/run"
 	"github.com/form3tech-oss/f1/v2/internal/trigger/api"
 	"github.com/form3tech-oss/f1/v2/internal/trigger/constant"
@@ -30,6 +32,7 @@ import (
 	"github.com/form3tech-oss/f1/v2/internal/trigger/users"
 	"github.com/form3tech-oss/f1/v2/internal/ui"
 	"github.com/form3tech-oss/f1/v2/internal/verifhook"
+	"github.com/form3tech-oss/f1/v2/pkg/f1"
 	f1testing "github.com/form3tech-oss/f1/v2/pkg/f1/testing"
 )
 
@@ -112,6 +115,9 @@ type rCase struct {
 	opts           func(*options.RunOptions)
 	envKeys        []string
 	stageEnv       []string // file mode: environment each planned stage must provide ("K=V;K=V", keys in envKeys order)
+	// the run goes through the real command line (F1.ExecuteWithArgs: flag parsing, run_cmd, signal context) instead
+	// of run.NewRun: cli = the trigger sub-command followed by its own flags; the common flags are derived from cfg
+	cli []string
 }
 
 type rRec struct {
@@ -395,6 +401,11 @@ func runOne(c *ctx, rc rCase, m *metrics.Metrics) rTrace {
 			return v
 		}
 	}
+	if rc.cli != nil && rc.build == nil {
+		rc.build = func(func(api.RateFunction) api.RateFunction) (*api.Trigger, error) {
+			return &api.Trigger{}, nil // built by the command line itself
+		}
+	}
 	trig, err := rc.build(wrap)
 	if err != nil {
 		tr.Err = "build: " + err.Error()
@@ -583,6 +594,12 @@ func runOne(c *ctx, rc rCase, m *metrics.Metrics) rTrace {
 		go func() {
 			time.Sleep(time.Duration(rc.cfg.CancelUs) * time.Microsecond)
 			rec.add(rEv{K: "cancel", C: rec.us()})
+			if rc.cli != nil {
+				// what a user's Ctrl-C is: the run's signal context turns it into the cancellation (asynchronously, so
+				// there is no instant from which the harness KNOWS the context to be done)
+				_ = syscall.Kill(os.Getpid(), syscall.SIGINT)
+				return
+			}
 			cancel()
 			rec.add(rEv{K: "cancelret", C: rec.us()}) // the context is done from here on, whatever the clocks say
 		}()
@@ -594,7 +611,29 @@ func runOne(c *ctx, rc rCase, m *metrics.Metrics) rTrace {
 		err error
 	}
 	doneCh := make(chan doRes, 1)
+	var cliErr error
 	go func() {
+		if rc.cli != nil {
+			name := rc.scnName
+			if name == "" {
+				name = "scn"
+			}
+			args := []string{"run", rc.cli[0]}
+			if rc.cli[0] != "file" {
+				args = append(args, name)
+			}
+			args = append(args, rc.cli[1:]...)
+			if rc.cli[0] != "file" {
+				args = append(args, "--concurrency", strconv.Itoa(rc.cfg.Conc), "--max-duration",
+					(time.Duration(rc.cfg.MaxDurUs) * time.Microsecond).String())
+				if rc.cfg.MaxIter > 0 {
+					args = append(args, "--max-iterations", strconv.FormatInt(rc.cfg.MaxIter, 10))
+				}
+			}
+			cliErr = f1.New().WithLogger(logger).Add(name, fn).ExecuteWithArgs(args)
+			doneCh <- doRes{nil, metrics.Instance(), nil}
+			return
+		}
 		r1, m1, e1 := sr.doTrigger(ctxRun, fn, trig)
 		doneCh <- doRes{r1, m1, e1}
 	}()
@@ -687,13 +726,28 @@ func runOne(c *ctx, rc rCase, m *metrics.Metrics) rTrace {
 			k = j + 1
 		}
 	}
-	snap := res.Snapshot()
+	var snap progress.Snapshot
 	flags := ""
-	if res.Failed() {
-		flags += "failed;"
-	}
-	if e := res.Error(); e != nil {
-		flags += "err=" + e.Error() + ";"
+	if rc.cli != nil {
+		// the command line hands back an error only; the counts are those of the summary it logged
+		rec.mu.Lock()
+		for _, e := range rec.ev {
+			if e.K == "summary" {
+				snap.SuccessfulIterationDurations.Count, snap.FailedIterationDurations.Count, snap.DroppedIterationCount = uint64(e.A), uint64(e.B), uint64(e.D)
+			}
+		}
+		rec.mu.Unlock()
+		if cliErr != nil {
+			flags += "failed;err=" + cliErr.Error() + ";"
+		}
+	} else {
+		snap = res.Snapshot()
+		if res.Failed() {
+			flags += "failed;"
+		}
+		if e := res.Error(); e != nil {
+			flags += "err=" + e.Error() + ";"
+		}
 	}
 	select {
 	case <-rvDone:
@@ -797,6 +851,9 @@ func buildCases(c *ctx) []rCase {
 	ms := int64(1000)
 	var cases []rCase
 	add := func(rc rCase) {
+		if rc.cli != nil {
+			rc.cfg.WaitUs = 10_000_000 // the command line's fixed completion timeout
+		}
 		if rc.cfg.WaitUs == 0 {
 			rc.cfg.WaitUs = 2_000_000
 		}
@@ -999,6 +1056,77 @@ func buildCases(c *ctx) []rCase {
 			}}
 		add(ru)
 	}
+	// --- the same kinds of run THROUGH THE REAL COMMAND LINE (F1.ExecuteWithArgs: flag parsing, run_cmd's option
+	// plumbing, the signal context): what a user of the f1 binary gets; the completion timeout is the CLI's 10 s
+	{
+		viaCLI := func(rc rCase, sub string, flags ...string) rCase {
+			rc.cfg.Name = "cli-" + rc.cfg.Name
+			rc.cfg.WaitUs = 10_000 * ms
+			rc.cli = append([]string{sub}, flags...)
+			return rc
+		}
+		usersCase := func(name string, conc int, maxIter, durUs int64) rCase {
+			return rCase{cfg: rCfg{Name: name, Mode: "users", Conc: conc, MaxIter: maxIter, MaxDurUs: durUs},
+				build: func(func(api.RateFunction) api.RateFunction) (*api.Trigger, error) {
+					return users.Rate().New(users.Rate().Flags)
+				}}
+		}
+		lim := int64(3 + c.rng.Intn(40))
+		rate := fmt.Sprintf("%d/20ms", 1+lim*int64(1+c.rng.Intn(3)))
+		rc := constantCase("limit-constant", rate, 20*ms, []int{1, 3, 16}[c.rng.Intn(3)], lim, 3000*ms, "none")
+		rc.bodyMaxUs, rc.failEvery = 300, 3
+		add(viaCLI(rc, "constant", "--rate", rate, "--distribution", "none"))
+		ru := usersCase("limit-users", 1+c.rng.Intn(12), int64(2+c.rng.Intn(60)), 3000*ms)
+		ru.bodyMaxUs, ru.failEvery, ru.panicEvery = 200, 4, 5
+		add(viaCLI(ru, "users"))
+		ru2 := usersCase("limit-race-users", 32, int64(300+c.rng.Intn(900)), 5000*ms)
+		ru2.cfg.Light = true
+		add(viaCLI(ru2, "users"))
+		rate = fmt.Sprintf("%d/25ms", 1+c.rng.Intn(6))
+		rd := constantCase("duration-constant", rate, 25*ms, 1+c.rng.Intn(3), 0, 350*ms, "none")
+		rd.bodyMaxUs = 2000
+		add(viaCLI(rd, "constant", "-r", rate, "--distribution", "none"))
+		rd2 := constantCase("duration-regular-dist", "20/300ms", 100*ms, 8, 0, 650*ms, "regular")
+		add(viaCLI(rd2, "constant", "-r", "20/300ms", "--distribution", "regular"))
+		ud := usersCase("users-duration", 1+c.rng.Intn(8), 0, 250*ms)
+		ud.bodyMaxUs, ud.failEvery, ud.panicEvery = 4000, 6, 11
+		add(viaCLI(ud, "users"))
+		// Ctrl-C
+		ri := constantCase("interrupt-constant", "6/10ms", 10*ms, 3, 0, 3000*ms, "none")
+		ri.cfg.CancelUs = int64(30000 + c.rng.Intn(200000))
+		ri.bodyMaxUs = 15000
+		add(viaCLI(ri, "constant", "-r", "6/10ms", "--distribution", "none"))
+		ui2 := usersCase("interrupt-users", 4, 0, 3000*ms)
+		ui2.cfg.CancelUs = int64(30000 + c.rng.Intn(100000))
+		ui2.bodyMaxUs = 5000
+		add(viaCLI(ui2, "users"))
+		// failed setup; dropped work; every worker usable
+		rs := constantCase("setup-fail-"+[]string{"failnow", "panic-runtime", "require"}[c.rng.Intn(3)], "5/10ms", 10*ms, 2, 0, 300*ms, "none")
+		rs.cfg.SetupFail = true
+		rs.cfg.SetupMode = strings.TrimPrefix(rs.cfg.Name, "setup-fail-")
+		add(viaCLI(rs, "constant", "-r", "5/10ms", "--distribution", "none"))
+		rdrop := constantCase("drops", "5/20ms", 20*ms, 1, 0, 300*ms, "none")
+		rdrop.bodyMaxUs = 30000
+		add(viaCLI(rdrop, "constant", "-r", "5/20ms", "--distribution", "none"))
+		conc := []int{2, 5, 16}[c.rng.Intn(3)]
+		rate = fmt.Sprintf("%d/400ms", conc+1)
+		rv := constantCase("rendezvous-constant", rate, 400*ms, conc, 0, 300*ms, "none")
+		rv.cfg.Rendezvous = true
+		add(viaCLI(rv, "constant", "-r", rate, "--distribution", "none"))
+		rvu := usersCase("rendezvous-users", conc, 0, 300*ms)
+		rvu.cfg.Rendezvous = true
+		add(viaCLI(rvu, "users"))
+		// a staged profile
+		rst := rCase{cfg: rCfg{Name: "staged", Mode: "staged", RateMode: true, Conc: 6, MaxDurUs: 2000 * ms, IntervalUs: 20 * ms, Args: "0s:4,150ms:10,150ms:0"},
+			build: func(w func(api.RateFunction) api.RateFunction) (*api.Trigger, error) {
+				r, err := staged.CalculateStagedRate(0, 20*time.Millisecond, "0s:4,150ms:10,150ms:0", "none", nil)
+				if err != nil {
+					return nil, err
+				}
+				return rateTrigger(r, w), nil
+			}, bodyMaxUs: 3000, failEvery: 7}
+		add(viaCLI(rst, "staged", "--stages", "0s:4,150ms:10,150ms:0", "--iterationFrequency", "20ms", "--distribution", "none"))
+	}
 	// slow cleanups: the handle is busy until its iteration's cleanups have run
 	for _, mode := range []string{"users", "constant"} {
 		if mode == "users" {
@@ -1155,7 +1283,16 @@ func buildCases(c *ctx) []rCase {
 	// --- file mode: stages strictly sequential, environment per stage, users stage followed by another stage
 	fileCase := func(name, yaml string, nstages int, keys []string, stageEnv []string, maxDurUs int64, conc int, bodyUs int) {
 		yy := yaml
-		add(rCase{cfg: rCfg{Name: name, Mode: "file", Conc: conc, MaxDurUs: maxDurUs, FileStages: nstages, Light: strings.Contains(name, "stress"),
+		var cliArgs []string
+		if strings.HasPrefix(name, "cli-") {
+			// through the command line: `run file <path>` reads the file itself (it stays until the driver's output
+			// directory goes)
+			p := filepath.Join(c.out, fmt.Sprintf("cli-cfg-%d.yaml", len(cases)))
+			if err := os.WriteFile(p, []byte(yy), 0o600); err == nil {
+				cliArgs = []string{"file", p}
+			}
+		}
+		add(rCase{cli: cliArgs, cfg: rCfg{Name: name, Mode: "file", Conc: conc, MaxDurUs: maxDurUs, FileStages: nstages, Light: strings.Contains(name, "stress"),
 			Args: strings.ReplaceAll(yy, "\n", "\\n")},
 			build: func(func(api.RateFunction) api.RateFunction) (*api.Trigger, error) {
 				p := filepath.Join(c.out, fmt.Sprintf("cfg-%d.yaml", time.Now().UnixNano()))
@@ -1200,6 +1337,51 @@ stages:
   rate: 2/20ms
 `, 3, []string{"VERIF_STAGE", "VERIF_A", "VERIF_DEF", "VERIF_FAST"},
 		[]string{"VERIF_STAGE=one;VERIF_A=a1", "VERIF_STAGE=two;VERIF_FAST=1", "VERIF_DEF=dflt"}, 5000*ms, 6, 60000)
+	fileCase("cli-file-constant-users-constant", `scenario: scn
+limits:
+  max-duration: 5s
+  concurrency: 5
+  max-iterations: 0
+  ignore-dropped: true
+default:
+  mode: constant
+  distribution: none
+  jitter: 0
+  parameters:
+    VERIF_DEF: dflt
+stages:
+- duration: 150ms
+  rate: 3/20ms
+  parameters:
+    VERIF_STAGE: one
+    VERIF_A: a1
+- duration: 160ms
+  mode: users
+  concurrency: 3
+  parameters:
+    VERIF_STAGE: two
+    VERIF_FAST: "1"
+- duration: 150ms
+  rate: 2/20ms
+`, 3, []string{"VERIF_STAGE", "VERIF_A", "VERIF_DEF", "VERIF_FAST"},
+		[]string{"VERIF_STAGE=one;VERIF_A=a1", "VERIF_STAGE=two;VERIF_FAST=1", "VERIF_DEF=dflt"}, 5000*ms, 5, 60000)
+	fileCase("cli-file-limit", `scenario: scn
+limits:
+  max-duration: 5s
+  concurrency: 4
+  max-iterations: 23
+  ignore-dropped: true
+default:
+  mode: constant
+  distribution: none
+  jitter: 0
+stages:
+- duration: 100ms
+  rate: 3/20ms
+- duration: 2s
+  mode: users
+  concurrency: 3
+`, 2, nil, nil, 5000*ms, 4, 500)
 	// iterations still in flight when the next stage builds its pool (bodies up to 140 ms, stages of 100 ms),
 	// every second one failing from its first statement: each is reported by its own outcome
 	for k := 0; k < c.pick(2, 6); k++ {
